@@ -334,3 +334,88 @@ func RuleR2(c *Ctx) {
 		sc.Violation("eof:scan", c.P.Pos(sfd.Pos()), "the scan stage can return success without the end-of-input test")
 	}
 }
+
+// RuleR3: inside the resolver's walk, every test about the candidate context reads
+// the candidate afresh.
+func RuleR3(c *Ctx) {
+	sc := c.Run.Begin("R3", "in the loop that walks outwards over candidate contexts, no value computed before the loop from the candidate (the loop-variant field) is used inside it: every admissibility test refers to the current candidate, not to the one the walk started from", 1)
+	defer sc.End()
+	resolver, _ := c.resolverFunc()
+	fd := c.P.Decl(resolver)
+	if fd == nil {
+		sc.Undecided("resolver", "-", "unresolved anchor: the context resolver")
+		return
+	}
+	pk := c.P.PkgOfDecl(fd)
+	info := pk.TypesInfo
+	n := 0
+	ast.Inspect(fd.Body, func(x ast.Node) bool {
+		fs, ok := x.(*ast.ForStmt)
+		if !ok {
+			return true
+		}
+		// loop-variant fields: struct fields assigned in the loop body
+		variant := map[*types.Var]bool{}
+		ast.Inspect(fs.Body, func(y ast.Node) bool {
+			if as, ok := y.(*ast.AssignStmt); ok {
+				for _, l := range as.Lhs {
+					if sel, ok := ast.Unparen(l).(*ast.SelectorExpr); ok {
+						if v, ok := info.ObjectOf(sel.Sel).(*types.Var); ok && v.IsField() {
+							variant[v] = true
+						}
+					}
+				}
+			}
+			return true
+		})
+		if len(variant) == 0 {
+			return true
+		}
+		n++
+		mentionsVariant := func(e ast.Node) bool {
+			found := false
+			ast.Inspect(e, func(y ast.Node) bool {
+				if sel, ok := y.(*ast.SelectorExpr); ok {
+					if v, ok := info.ObjectOf(sel.Sel).(*types.Var); ok && variant[v] {
+						found = true
+					}
+				}
+				return !found
+			})
+			return found
+		}
+		// locals defined before the loop from the variant field
+		stale := map[types.Object]string{}
+		ast.Inspect(fd.Body, func(y ast.Node) bool {
+			as, ok := y.(*ast.AssignStmt)
+			if !ok || as.Pos() >= fs.Pos() {
+				return true
+			}
+			for i, l := range as.Lhs {
+				if id, ok := l.(*ast.Ident); ok && i < len(as.Rhs) && mentionsVariant(as.Rhs[i]) {
+					stale[info.ObjectOf(id)] = c.P.Pos(as.Pos())
+				}
+			}
+			return true
+		})
+		bad := ""
+		ast.Inspect(fs.Body, func(y ast.Node) bool {
+			if id, ok := y.(*ast.Ident); ok {
+				if where, isStale := stale[info.ObjectOf(id)]; isStale {
+					bad = fmt.Sprintf("%s (computed at %s, before the walk) is used at %s", id.Name, where, c.P.Pos(id.Pos()))
+				}
+			}
+			return true
+		})
+		key := fmt.Sprintf("%s:walk#%d", c.P.DeclName(fd), n)
+		if bad == "" {
+			sc.Holds(key, c.P.Pos(fs.Pos()), "every test inside the walk reads the current candidate")
+		} else {
+			sc.Violation(key, c.P.Pos(fs.Pos()), bad+": the walk moves the candidate context outwards, but this value still describes the context it started from — a directive can be placed (or refused) by the rule for the wrong candidate")
+		}
+		return true
+	})
+	if n == 0 {
+		sc.Undecided("walk", c.P.Pos(fd.Pos()), "no loop that moves a candidate field found in the resolver")
+	}
+}
